@@ -1,6 +1,6 @@
 """C20: half-rate decoding halves the sample count and keeps positions truthful (explicit-state BFS with toggles in the alphabet)."""
 import sys, time, json, subprocess
-import vlib, zoo, seekgraph
+import vlib, zoo, seekgraph, c20_axes
 from seekgraph import Explorer, parse_out, OV_EINVAL
 
 PID = 'C20'
@@ -99,6 +99,15 @@ def make_judge(chk, stats):
             if rc == 0 and tell != (p & ~1):
                 chk.violation(classify(fm, hist, r, 'halfrate_seek_landing'), f'{op} with half-rate on landed at {tell}, expected {p & ~1}', rep)
             stats['hr_seeks'] += 1
+        if parent is not None and op[:2] == 'ts' and hs:
+            # a time seek is a sample-accurate seek to floor(t*rate) of the containing link (targets lie strictly between sample instants)
+            tgt = fm.time_target(float(op[2:]))
+            rc, tell = r['R'][-1]
+            if tgt is not None and rc == 0:
+                s0 = fm.start[tgt[0]]
+                if tell != s0 + ((tgt[1] - s0) & ~1):
+                    chk.violation(classify(fm, hist, r, 'halfrate_time_seek_landing'), f'{op} with half-rate on landed at {tell}, expected {s0 + ((tgt[1] - s0) & ~1)}', rep)
+                stats['hr_time_seeks'] += 1
         if not ok:
             return
         stats['judged'] += 1
@@ -117,6 +126,7 @@ def run(tier):
     files = {k: allf[k] for k in ('F1f', 'F2', 'F2z')}
     files.update(zoo.halfrate_refusal_files())
     files.update(zoo.halfrate_extra_files())
+    files.update(c20_axes.bfs_roots())        # an odd-rate link and an all-long tail whose final page holds 8 packets
     exe, listfile, models = seekgraph.load_models(files)
     # reference facts: ceil(N/2) per link, positions advance by two per sample
     rs = json.loads(subprocess.run([exe, '--files', listfile, '--refstats'], stdout=subprocess.PIPE, env=vlib.run_env(), text=True).stdout)
@@ -140,8 +150,11 @@ def run(tier):
             if l['len'] != n or l['hlen'] != (n + 1) // 2 or l['total'] != n:
                 chk.violation(f'{fm.name}:halfrate_count', f'link {k}: N={n} full={l["len"]} half={l["hlen"]} expected {(n + 1) // 2}', rep)
         chk.cov['evaluations'] += 1
-    t_end = time.time() + (200 if tier == 'quick' else 1500)
-    stats = {'toggles': 0, 'hr_seeks': 0, 'judged': 0, 'sigs': set(), 'refusals': 0}
+    # directed exhaustive sweeps (rate axis x time seeks; fresh decode machine x final page): fixed enumerations, completed before the deadline-bounded BFS
+    t_ax = time.time()
+    ax = c20_axes.run(chk, tier)
+    t_end = (time.time() + 250) if tier == 'quick' else (t_ax + 1500)     # quick: the BFS keeps the per-file budget it had (8 files/200 s, now 10 files/250 s; it ends by its depth cap in ~40 s on an idle machine); thorough: the sweeps count against the 25 min
+    stats = {'toggles': 0, 'hr_seeks': 0, 'hr_time_seeks': 0, 'judged': 0, 'sigs': set(), 'refusals': 0}
     tot_states = tot_trans = 0
     per_file = {}
     all_fix = True
@@ -190,9 +203,10 @@ def run(tier):
     if merr:
         chk.guard(False, 'replay determinism: %r' % (merr[:2],))
     chk.cov.update({'states': tot_states, 'transitions': tot_trans, 'traces_validated_against_impl': tot_trans,
-                    'distinct_nontrivial': len(stats['sigs']), 'per_file': per_file, 'exhaustive': all_fix, 'toggle_transitions': stats['toggles'], 'halfrate_sample_seeks': stats['hr_seeks'],
+                    'distinct_nontrivial': len(stats['sigs']) + len(ax['sigs']), 'halfrate_time_seeks': stats['hr_time_seeks'], 'per_file': per_file, 'exhaustive': all_fix, 'toggle_transitions': stats['toggles'], 'halfrate_sample_seeks': stats['hr_seeks'],
                     'rule': 'BFS over histories of reads, seeks and ov_halfrate(0|1) toggles on real handles, canonical state hash; in every state the read-through must be bit-identical to the half-rate (flag on) '
-                            'or full-rate (flag off) linear decode at ov_pcm_tell; totals unchanged; ps lands on p&~1; distinct_nontrivial = distinct (flag, op kind, flag before, link) signatures'})
+                            'or full-rate (flag off) linear decode at ov_pcm_tell; totals unchanged; ps lands on p&~1; distinct_nontrivial = distinct (flag, op kind, flag before, link) signatures '
+                            '+ distinct (family, file kind, class, flag, op, ...) signatures of the directed sweeps (cov.axes)'})
     chk.assumptions += ['zoo links have even lengths and even page granules so that "the even position at or below the target" is well defined', 'streams F8/F9 contain a link with 64-sample short blocks written by the specification-level synthesiser (the encoder never emits them)']
     chk.guard(stats['toggles'] > 20 and stats['hr_seeks'] > 50, 'toggles and half-rate seeks exercised')
     chk.guard(stats['refusals'] > 10, 'refusal on 64-sample-block streams exercised from many states')
@@ -203,10 +217,13 @@ def run(tier):
 def replay(path):
     r = json.load(open(path))
     vlib.build('plain')
+    if r['replay'].get('family') == 'c20_axes':
+        return c20_axes.replay(r['replay'])
     allf = zoo.standard_files()
     files = {k: allf[k] for k in ('F1f', 'F2', 'F2z')}
     files.update(zoo.halfrate_refusal_files())
     files.update(zoo.halfrate_extra_files())
+    files.update(c20_axes.bfs_roots())
     exe, listfile, models = seekgraph.load_models(files)
     fm = [m for m in models if m.name == r['replay']['file']][0]
     out = vlib.run_cases(exe, [f"{fm.idx} s - plin " + ' '.join(r['replay']['ops'])], ['--files', listfile], jobs=1)
